@@ -51,7 +51,7 @@ def run_spec(ctx, rep, spec, model, only=None):
 
 
 def run(ctx, rep, model=True):
-    n = 8 if ctx.quick else 60
+    n = 14 if ctx.quick else 80
     for i in range(n):
         spec = plotgen.random_spec(ctx.rng, nf=[2, 3, 1, 4][i % 4], data=["tags", "bits"][i % 2], B=2,
                                    layout=["scatter", "perm", "files", "mono"][i % 4], exact=(i % 3 != 2))
